@@ -194,6 +194,9 @@ def run(ctx):
     # permitted-alphabet constraints FROM (...) against an independent reading of the permitted set
     from .. import fromfam as _fromfam
     _fromfam.run(ctx, 'C01', ctx.rng, ctx.n(30, 400), codecs=['ber', 'der', 'per', 'uper', 'oer'])
+    # time types (outside the Lean universe): same instant back, decoded value accepted, canonical re-encoding
+    from .. import timefam as _timefam
+    _timefam.run(ctx, 'C01', ctx.rng, ctx.n(25, 300), _timefam.BIN)
 
 
 WITNESSES = [
